@@ -257,8 +257,10 @@ class Emcee(AbstractMCMC):
         search_internal = search_internal or self.backend
 
         if os.environ.get("PYAUTOFIT_TEST_MODE") == "1":
+            discard = 5
+            thin = 5
             samples_after_burn_in = search_internal.get_chain(
-                discard=5, thin=5, flat=True
+                discard=discard, thin=thin, flat=True
             )
 
         else:
@@ -278,9 +280,9 @@ class Emcee(AbstractMCMC):
 
         total_samples = len(parameter_lists)
 
-        log_posterior_list = search_internal.get_log_prob(flat=True)[
-            -total_samples - 1 : -1
-        ].tolist()
+        log_posterior_list = search_internal.get_log_prob(
+            discard=discard, thin=thin, flat=True
+        ).tolist()
 
         log_likelihood_list = [
             log_posterior - log_prior
